@@ -51,7 +51,12 @@ func init() {
 				b, _ := hex.DecodeString(cs)
 				return fixedBytes(it, strLit(string(b)), n, name)
 			}
-			t := App("hex2"+name, SStr, it.toA(s))
+			in := it.toA(s)
+			if in.op == "app" && in.name == name+"hex" {
+				// HexToAddress(addr.Hex()) == addr
+				return &StrV{T: in.args[0], IsArr: true}
+			}
+			t := App("hex2"+name, SStr, in)
 			if !it.p.lenAx[t.id] {
 				it.p.lenAx[t.id] = true
 				it.p.assertAxiom(Eq(App("len", bvSort(64), t), BVu(64, uint64(n))))
@@ -89,7 +94,14 @@ func init() {
 			}
 			t := App(name, SStr, it.toA(s))
 			it.p.noteInjective(name, t)
-			it.strLenTerm(t)
+			if !it.p.lenAx[t.id] {
+				it.p.lenAx[t.id] = true
+				n := 42
+				if name == "hashhex" {
+					n = 66
+				}
+				it.p.assertAxiom(Eq(App("len", bvSort(64), t), BVu(64, uint64(n))))
+			}
 			return &StrV{T: t}
 		}
 	}
